@@ -381,20 +381,23 @@ theorem safe_updRest {id1 id2 A loc n oldId : Bytes} {d : Nat} (o2 : List Nat)
 
 /-- the invariant at every prefix, with what the hash resolves to: once the first two requests are
     applied (and whenever nothing had to be done) it is the LOCAL key -/
-theorem update_prefix_inv' (ver : Bytes) {id1 id2 loc : Bytes} {t₀ : Target} {n r : Bytes} {d : Nat}
+theorem update_prefix_inv'' (ver : Bytes) {id1 id2 loc : Bytes} {t₀ : Target} {n r : Bytes} {d : Nat}
     {X : Int} {now : Int} (P : UpdPre id1 id2 loc t₀ n r d X now) (o1 o2 : List Nat)
     (ho1 : d ∈ o1) (k : Nat) :
     ∃ n' r', n' ≠ [] ∧ getHash (applyAll t₀ ((updateReqs ver t₀ loc [id1, id2] o1 o2 now).take k)).hash
         [id1, id2] = some (n', r') ∧
       Holds [id1, id2] (applyAll t₀ ((updateReqs ver t₀ loc [id1, id2] o1 o2 now).take k)) n' d X ∧
       ((n ≠ loc ∨ id1 ≠ r) → 2 ≤ k → n' = loc ∧ r' = id1) ∧
-      (¬ (n ≠ loc ∨ id1 ≠ r) → n' = n ∧ r' = r) := by
+      (¬ (n ≠ loc ∨ id1 ≠ r) → n' = n ∧ r' = r) ∧
+      -- once the hash is repointed the NEW id alone carries the position under the LOCAL key
+      ((n ≠ loc ∨ id1 ≠ r) → 2 ≤ k →
+        Inv id1 id2 id1 (applyAll t₀ ((updateReqs ver t₀ loc [id1, id2] o1 o2 now).take k)) loc id1 d X) := by
   obtain ⟨c, hgc, hcX, hcq, hfetch⟩ := getCheckpoint_of_holds ver P.holds o1 ho1
   rw [updateReqs_shape ver o1 o2 now P.hn P.hn0 hgc]
   by_cases hbr : n ≠ loc ∨ id1 ≠ r
   case neg =>
     simp only [hbr, if_false, List.take_nil]
-    exact ⟨n, r, P.hn0, P.hn, P.holds, fun h => h.elim, fun _ => ⟨rfl, rfl⟩⟩
+    exact ⟨n, r, P.hn0, P.hn, P.holds, fun h => h.elim, fun _ => ⟨rfl, rfl⟩, fun h => h.elim⟩
   simp only [hbr, if_true]
   -- facts about what GetCheckpoint returned
   obtain ⟨c', hc', hoff', hrid'⟩ := fetch_spec [id1, id2] (t₀.cps d n) (P.holds.parses d)
@@ -439,12 +442,14 @@ theorem update_prefix_inv' (ver : Bytes) {id1 id2 loc : Bytes} {t₀ : Target} {
       have : ¬ (db = d ∧ n = loc) := fun h => hnl h.2
       simp [this]
   cases k with
-  | zero => exact ⟨n, r, P.hn0, P.hn, P.holds, fun _ h => absurd h (by omega), fun h => absurd trivial h⟩
+  | zero => exact ⟨n, r, P.hn0, P.hn, P.holds, fun _ h => absurd h (by omega), fun h => absurd trivial h,
+      fun _ h => absurd h (by omega)⟩
   | succ k =>
   cases k with
   | zero =>
     simp only [List.take_succ_cons, List.take_zero, applyAll, List.foldl_cons, List.foldl_nil]
-    exact ⟨n, r, P.hn0, P.hn, hholds1, fun _ h => absurd h (by omega), fun h => absurd trivial h⟩
+    exact ⟨n, r, P.hn0, P.hn, hholds1, fun _ h => absurd h (by omega), fun h => absurd trivial h,
+      fun _ h => absurd h (by omega)⟩
   | succ k =>
     simp only [List.take_succ_cons, applyAll, List.foldl_cons]
     -- the state after the second request
@@ -474,13 +479,13 @@ theorem update_prefix_inv' (ver : Bytes) {id1 id2 loc : Bytes} {t₀ : Target} {
         · exact hold d e he' hs
       · exact hold db e he hs
     -- choose the carrier and establish the invariant under the new key
-    have hinv2 : ∃ A, (A = id1 ∨ A = id2) ∧ (n = loc → c'.runId ≠ id1 → c'.runId ≠ A) ∧
+    have hinv2 : ∃ A, A = id1 ∧ (A = id1 ∨ A = id2) ∧ (n = loc → c'.runId ≠ id1 → c'.runId ≠ A) ∧
         Inv id1 id2 A t₂ loc id1 d X := by
       by_cases hnl : n = loc
       · have hh2 : Holds [id1, id2] t₂ loc d X := by
           have := hholds1.congr (t' := t₂) (fun db => hcps2 db n)
           rw [hnl] at this; exact this
-        refine ⟨id1, Or.inl rfl, fun _ h => h, hhash2, hh2, ?_, hridok2⟩
+        refine ⟨id1, rfl, Or.inl rfl, fun _ h => h, hhash2, hh2, ?_, hridok2⟩
         unfold Carrier
         rw [hcps2, hcps1]; simp only [and_self, if_true]
         constructor
@@ -494,7 +499,7 @@ theorem update_prefix_inv' (ver : Bytes) {id1 id2 loc : Bytes} {t₀ : Target} {
           rw [ridSel_iff, matchId_one] at hs
           rw [P.own d e (hnl ▸ he) hs.2, hs.1]; exact P.h1q
       · have hfr := P.fresh hnl
-        refine ⟨id1, Or.inl rfl, fun h => absurd h hnl, hhash2, ?_, ?_, hridok2⟩
+        refine ⟨id1, rfl, Or.inl rfl, fun h => absurd h hnl, hhash2, ?_, ?_, hridok2⟩
         · refine ⟨P.holds.nonneg, ?_, ?_, ?_, ?_⟩
           · intro db
             rw [hcps2, hcps1]
@@ -530,11 +535,25 @@ theorem update_prefix_inv' (ver : Bytes) {id1 id2 loc : Bytes} {t₀ : Target} {
             rw [ridSel_iff, matchId_one] at hs
             rw [ridSel_iff, matchId_pair]
             exact ⟨Or.inl hs.1, hs.2⟩
-    obtain ⟨A, hA, hAold, hinv⟩ := hinv2
-    have hsafe := safe_updRest (id1 := id1) (id2 := id2) (A := A) (loc := loc) (d := d) o2 hAold
+    obtain ⟨A, hA1, hA, hAold, hinv⟩ := hinv2
+    have hA1' := hA1.symm
+    subst hA1'
+    have hsafe := safe_updRest (id1 := id1) (id2 := id2) (A := id1) (loc := loc) (d := d) o2 hAold
     have := inv_applyAll P.hne P.h1 hA ((updRest n c'.runId id1 loc o2).take k) hinv
       (fun q hq => hsafe q (mem_take hq))
-    exact ⟨loc, id1, P.hloc, this.hash, this.holds, fun _ _ => ⟨rfl, rfl⟩, fun h => absurd trivial h⟩
+    exact ⟨loc, id1, P.hloc, this.hash, this.holds, fun _ _ => ⟨rfl, rfl⟩, fun h => absurd trivial h,
+      fun _ _ => this⟩
+
+theorem update_prefix_inv' (ver : Bytes) {id1 id2 loc : Bytes} {t₀ : Target} {n r : Bytes} {d : Nat}
+    {X : Int} {now : Int} (P : UpdPre id1 id2 loc t₀ n r d X now) (o1 o2 : List Nat)
+    (ho1 : d ∈ o1) (k : Nat) :
+    ∃ n' r', n' ≠ [] ∧ getHash (applyAll t₀ ((updateReqs ver t₀ loc [id1, id2] o1 o2 now).take k)).hash
+        [id1, id2] = some (n', r') ∧
+      Holds [id1, id2] (applyAll t₀ ((updateReqs ver t₀ loc [id1, id2] o1 o2 now).take k)) n' d X ∧
+      ((n ≠ loc ∨ id1 ≠ r) → 2 ≤ k → n' = loc ∧ r' = id1) ∧
+      (¬ (n ≠ loc ∨ id1 ≠ r) → n' = n ∧ r' = r) := by
+  obtain ⟨n', r', h1, h2, h3, h4, h5, _⟩ := update_prefix_inv'' ver P o1 o2 ho1 k
+  exact ⟨n', r', h1, h2, h3, h4, h5⟩
 
 theorem update_prefix_inv (ver : Bytes) {id1 id2 loc : Bytes} {t₀ : Target} {n r : Bytes} {d : Nat}
     {X : Int} {now : Int} (P : UpdPre id1 id2 loc t₀ n r d X now) (o1 o2 : List Nat)
